@@ -51,6 +51,10 @@ def generate(rng, tier, cls):
     except R.RefReject:
         nsec = 1
 
+    # bounded work per file: fewer configurations for files with very many
+    # sections
+    n = max(4, min(n, 8000 // nsec))
+
     for _ in range(n):
         pad = rng.randint(0, 2 * B) if rng.chance(0.8) else \
             rng.choice([0, 1, B - 1, B, B + 1, 2 * B, 2048])
